@@ -85,6 +85,14 @@ func lbStart(t *testing.T) *lbServers {
 	s.crypt = dnsservertest.RunDNSCryptServer(t, h)
 
 	s.clientTLS = &tls.Config{InsecureSkipVerify: true, ServerName: lbTLSName}
+	s.h2, s.h3 = lbNewHTTPClients(s)
+	lbTheServers = s
+
+	return s
+}
+
+// lbNewHTTPClients returns fresh HTTP/2 and HTTP/3 clients (no connection yet).
+func lbNewHTTPClients(s *lbServers) (h2c, h3c *http.Client) {
 	h2tls := s.clientTLS.Clone()
 	h2tls.NextProtos = []string{"h2"}
 	dialer := &net.Dialer{Timeout: lbTimeout}
@@ -96,22 +104,69 @@ func lbStart(t *testing.T) *lbServers {
 			return dialer.DialContext(ctx, network, s.dohAddr.String())
 		},
 	}
-	if err = http2.ConfigureTransport(tr); err != nil {
+	if err := http2.ConfigureTransport(tr); err != nil {
 		vrt.Fatalf("c01 loopback: http2: %v", err)
 	}
-	s.h2 = &http.Client{Transport: tr, Timeout: lbTimeout}
+	h2c = &http.Client{Transport: tr, Timeout: lbTimeout}
 	h3tls := s.clientTLS.Clone()
 	h3tls.NextProtos = []string{http3.NextProtoH3}
-	s.h3 = &http.Client{Timeout: lbTimeout, Transport: &http3.Transport{
+	h3c = &http.Client{Timeout: lbTimeout, Transport: &http3.Transport{
 		DisableCompression: true,
 		TLSClientConfig:    h3tls,
 		Dial: func(ctx context.Context, _ string, tc *tls.Config, qc *quic.Config) (quic.EarlyConnection, error) {
 			return quic.DialAddrEarly(ctx, s.doh3Addr.String(), tc, qc)
 		},
 	}}
-	lbTheServers = s
 
-	return s
+	return h2c, h3c
+}
+
+// lbIdlePeriod is longer than dnsserver.DefaultReadTimeout, the deadline the
+// accept / read calls of the serving loops run with.
+const lbIdlePeriod = dnsserver.DefaultReadTimeout + 700*time.Millisecond
+
+// lbAfterIdle leaves all servers idle for lbIdlePeriod (one wait shared by all
+// transports), then sends a well-formed query over every transport on a NEW
+// connection; twice, so that the loops see a second expiry.  A transport
+// alarms only if three attempts in a row (10 s limits each) get no matching
+// answer.
+func lbAfterIdle(r *vrt.Run, s *lbServers) (fs []vrt.Finding) {
+	for round := 1; round <= 2; round++ {
+		time.Sleep(lbIdlePeriod)
+		// New HTTP connections too.
+		s.h2, s.h3 = lbNewHTTPClients(s)
+		for _, tr := range lbTransports {
+			var last vrt.Finding
+			ok := false
+			for a := 0; a < lbAttempts && !ok; a++ {
+				req := vdns.NewReq(uint16(0x7a00+round*16+a), "Ok.After-Idle.Example.", dns.TypeA, dns.ClassINET)
+				if tr == "doq" {
+					req.Id = 0
+				}
+				wire, _ := req.Pack()
+				sub := lbCheckAnswer(r, tr, req, lbSend(s, tr, req, wire))
+				r.Trans(1)
+				if len(sub) == 0 {
+					ok = true
+				} else {
+					last = sub[0]
+				}
+			}
+			if ok {
+				r.Class(fmt.Sprintf("loopback:%s answered on a new connection after idle period %d", tr, round))
+
+				continue
+			}
+			fs = append(fs, vrt.F("loopback-"+tr+"/no-answer-after-idle-period",
+				"after %d idle period(s) of %s (> DefaultReadTimeout) a well-formed query on a new connection got no matching answer in %d attempts: [%s] %s",
+				round, lbIdlePeriod, lbAttempts, last.Key, last.Detail)...)
+		}
+		if len(fs) > 0 {
+			break
+		}
+	}
+
+	return fs
 }
 
 // lbObs is what a client saw.
@@ -699,6 +754,16 @@ func lbRun(t *testing.T, r *vrt.Run, c lbCase) (fs []vrt.Finding) {
 	if c.T == "doq" && (c.What == "long-lived-130" || c.What == "long-lived-limit-8") {
 		return lbLongLived(r, s, c.What)
 	}
+	if c.T == "all" && c.What == "after-idle" {
+		return lbAfterIdle(r, s)
+	}
+	if c.T == "doq" && (c.What == "accept-timeouts-1" || c.What == "accept-timeouts-2") {
+		conf := dnsservertest.CreateServerTLSConfig(lbTLSName)
+		conf.NextProtos = dnsserver.NextProtoDoQ
+		r.Trans(2)
+
+		return dnsserver.VerifC01QUICAcceptTimeouts(r, conf, int(c.What[len(c.What)-1]-'0'))
+	}
 	var it lbItem
 	for _, x := range lbItems() {
 		if x.what == c.What {
@@ -862,6 +927,13 @@ func TestVerifC01Loopback(t *testing.T) {
 			// limit (100 by default; 8 on a server with QUIC limits enabled).
 			emit(lbCase{T: "doq", What: "long-lived-130"})
 			emit(lbCase{T: "doq", What: "long-lived-limit-8"})
+			// The real acceptQUICConn on a real quic-go listener whose Accept
+			// timed out k times before a client connects.
+			emit(lbCase{T: "doq", What: "accept-timeouts-1"})
+			emit(lbCase{T: "doq", What: "accept-timeouts-2"})
+			// Idle for longer than the accept / read deadline, then a new
+			// connection on every transport; twice.
+			emit(lbCase{T: "all", What: "after-idle"})
 		},
 		func(c lbCase) []vrt.Finding { return lbRun(t, r, c) })
 	r.Finish()
